@@ -121,6 +121,41 @@ def read_against_base_units(ctx, T, db, a, row, form):
             ctx.violation("composed-amount-changes-when-multiplied-by-base-units:%s" % side, {"row": row, "form": form, "composed": repr(a)[:160], "product": repr(r_)[:160], "ratio": float(got / want) if want else None}, replay={"row": row})
 
 
+def same_type_ratios(ctx, T, db, rows):
+    """Two named units of one quantity type, neither of them the base unit, meeting in one product at exponents other than 1
+    (x2 / y2, x * (1/y), x3 / y3): the unit-less number that remains is the ratio of their table factors at that exponent"""
+    from barril.units import Scalar
+
+    n = 0
+    for qt, lst in sorted(rows.items()):
+        base = db.GetBaseUnit(qt)
+        cands = [r["unit"] for r in lst if r["unit"] != base and r["unit"] in T.aff and T.aff[r["unit"]].off == 0.0]
+        # prefer pairs written with different divisors in the table (a rate per hour against a rate per minute)
+        cands.sort(key=lambda u: (getattr(db.unit_to_unit_info[u].tobase, "__c__", 1.0), u))
+        pairs = [(cands[0], cands[-1]), (cands[len(cands) // 2], cands[0])] if len(cands) >= 2 else []
+        for u1, u2 in pairs:
+            if u1 == u2:
+                continue
+            f = T.aff[u1].slope / T.aff[u2].slope
+            for form, build, want in (
+                ("x2 / y2", lambda: (Scalar(1.0, u1) * Scalar(1.0, u1)) / (Scalar(1.0, u2) * Scalar(1.0, u2)), f * f),
+                ("x * (1/y)", lambda: Scalar(1.0, u1) * (1.0 / Scalar(1.0, u2)), f),
+                ("(1/y2) * x2", lambda: (1.0 / (Scalar(1.0, u2) * Scalar(1.0, u2))) * (Scalar(1.0, u1) * Scalar(1.0, u1)), f * f),
+                ("x3 / y3", lambda: (Scalar(1.0, u1) ** 3) / (Scalar(1.0, u2) ** 3), f**3),
+            ):
+                ctx.ev()
+                n += 1
+                try:
+                    res = build()
+                    got = float(dims.basemag(T, res.GetValue(), dims.items_of(res.GetQuantity())))
+                except Exception as e:
+                    ctx.violation("same-type-ratio-raised:%s" % form, {"quantity_type": qt, "x": u1, "y": u2, "error": repr(e)[:160]}, replay={"row": u1})
+                    continue
+                if not abs(got - want) <= 1e-9 * abs(want):
+                    ctx.violation("same-type-ratio-differs-from-the-ratio-of-the-factors:%s" % form, {"quantity_type": qt, "x": u1, "y": u2, "got": got, "ratio_of_table_factors": want, "result": repr(res)[:120]}, replay={"row": u1})
+    ctx.count("ratios of two named units of one type at exponents other than 1", n)
+
+
 def factor_routes(db, qt, u, base):
     """[(route, factor or exception)]: what one unit of the row is in base units (and back), asked in every container."""
     import numpy as np
@@ -399,6 +434,7 @@ def run(ctx):
                         ctx.violation("row-factor-differs-by-route:%s" % route, {"row": r["unit"], "route": route, "factor_by_route": got_f, "factor_of_the_row": want_f}, replay={"row": r["unit"]})
                 if n_rows <= 3:
                     ctx.sample({"row": r["unit"], "parts": r["parts"], "table_factor": r["factor"], "k_over_ref": r["k"] / ref["k"], "tol": r["tol"]})
+        same_type_ratios(ctx, T, db, rows)
         # SI-prefix clause
         n_si = 0
         for u, info in infos.items():
